@@ -43,6 +43,8 @@ class Int:
         self.ty = ty
         if isinstance(v, int):
             v = wrap(ty, v)
+        elif z3.is_bv_value(v):
+            v = wrap(ty, v.as_long())
         self.v = v
 
     @property
